@@ -414,6 +414,9 @@ def _flatten_and(t, out):
 def solve(assumptions, goal, timeout_ms=10000, use_cvc5=False) -> Result:
     """Is (and assumptions) => goal valid?  A conjunction that does not close in one query is split."""
     goal = ir.lift(goal)
+    if os.environ.get("PYVC_FORCE_UNKNOWN"):
+        # self-test knob: no obligation is decided by a solver, so every one falls to the bounded native adjudication
+        return Result("unknown", seconds=0.0)
     parts = []
     _flatten_and(goal, parts)
     if len(parts) >= 6 and len(list(ir.subterms([goal]))) > 400:
